@@ -114,7 +114,7 @@ def run_r2c(case, stt):
     eps = 6e-8 if want_dt == np.complex64 else 1.2e-16
     if x.dtype == np.float16:
         eps = 6e-8  # scipy.fft computes half-precision input in single precision (the result is still stored as complex128)
-    tol = 16 * eps * (1 + math.log2(max(N, 2))) * math.sqrt(max(N, 1)) * max(scale, 1e-300)
+    tol = 16 * eps * (1 + math.log2(max(N, 2))) ** 2 * max(scale, 1e-300)  # (two transforms of length N and N exact mixer values)
     if y.size:
         # line by line (each line along the axis is its own conversion): the error is measured against that line's own amplitude
         yl = np.moveaxis(np.asarray(y), axis, 0).reshape(y.shape[axis], -1)
@@ -213,7 +213,7 @@ def run_wide(case, stt):
     eps = 6e-8 if dt == np.float32 else 1.2e-16
     # FFT rounding at the data's precision + the float64 mixing phasor exp(-i pi n / 2), whose argument carries a relative error of eps64
     # (absolute error growing linearly with n)
-    tol = 64 * eps * (1 + math.log2(N)) * float(np.max(np.abs(x))) + 8 * 1.2e-16 * (math.pi / 2) * N * float(np.max(np.abs(ref)))
+    tol = 64 * eps * (1 + math.log2(N)) * float(np.max(np.abs(x)))
     err = np.max(np.abs(y - ref), axis=0)
     bad = [int(j) for j in np.nonzero(err > tol)[0]]
     check(not bad, "columns {} differ from the analytic-baseband conversion (max error {:.3g}, tol {:.3g}; N={}, {} columns, axis={})", bad, float(err.max()), tol,
@@ -302,7 +302,7 @@ def run_reader(case, stt):
                 ref = (np.fft.ifft(a * h[:, None], axis=0) * np.exp(-0.5j * np.pi * (np.arange(N) % 4))[:, None])[::2]
             else:
                 ref = np.asarray(reference(block, 0))
-            tol = 16 * 6e-8 * (1 + math.log2(2 * n)) * math.sqrt(2 * n) * float(np.max(np.abs(block)))
+            tol = 16 * 6e-8 * (1 + math.log2(2 * n)) ** 2 * float(np.max(np.abs(block)))
             err = float(np.max(np.abs(np.asarray(z.data).reshape(ref.shape) - ref)))
             check(err <= tol, "read({}, {}) of a real-sampled file is not the analytic conversion of file samples [{}, {}): err {:.3g} (tol {:.3g})",
                   o, n, 2 * o, 2 * o + 2 * n, err, tol)
